@@ -691,3 +691,7 @@ Proof.
   destruct Hrun as (s & Hs & x & Hx & Hseen).
   exists s, 1, x. split; [|split; auto]. eapply run_reachable; eauto.
 Qed.
+
+(* the parent terminates the pool when a stripe fails *)
+Lemma terminate_true : terminate_on_failure = true.
+Proof. reflexivity. Qed.
